@@ -5,6 +5,7 @@ package main
 
 import (
 	"fmt"
+	"os"
 	"strings"
 
 	"simrt"
@@ -231,6 +232,8 @@ func genC15(d *RunDesc, tier string) {
 	d.Tasks = [][]Op{ops}
 }
 
+var crossVerbose = os.Getenv("CVSSSIM_CROSS_VERBOSE") != ""
+
 func runC15(d *RunDesc, res *RunResult) {
 	cfg := d.simConfig()
 	ctx := newTaskCtx(nil)
@@ -317,6 +320,9 @@ func runC15(d *RunDesc, res *RunResult) {
 						firstAt[key] = i
 						if len(res.Stats.CrossKeys) < 600 {
 							res.Stats.CrossKeys = append(res.Stats.CrossKeys, [2]uint64{hashString(key), hashString(result)})
+							if crossVerbose {
+								res.Stats.CrossDetail = append(res.Stats.CrossDetail, [3]string{fmt.Sprint(hashString(key)), clip(key, 500), clip(result, 900)})
+							}
 						}
 					}
 					// distinct (state class, observer) pairs
